@@ -99,6 +99,8 @@ class Gen:
                 path.append(("m", r.choice([0, 1, 3, 5])))
             if self.allow_known and r.random() < 0.1:
                 path = [("m", 3)]
+            elif r.random() < 0.08:
+                path = [("m", r.choice([0, 6, 6])), ("k", key)]   # a map() that is NOT the last path element: the key is looked up in what the map returns
             t = r.random()
             if t < 0.55:
                 rhs = r.choice([("s", v) for v in TAG_VALS if v is not None] + [("none",), ("s", "few"), ("s", "many"), ("s", "a")])
@@ -175,13 +177,13 @@ class Gen:
             if r.random() < 0.6:
                 u["tags"] = ("static", {k: r.choice(TAG_VALS) for k in r.sample(TAG_KEYS[:3], r.choice([1, 1, 2]))})
             else:
-                u["tags"] = ("call", r.choice([0, 2, 4, 5] + ([1, 3] if allow_raise else [])))
+                u["tags"] = ("call", r.choice([0, 2, 4, 5, 6, 6] + ([1, 3] if allow_raise else [])))
             n += 1
         if r.random() < 0.4 or n == 0:
             if r.random() < 0.6:
                 u["fields"] = ("static", {k: r.choice(FIELD_VALS) for k in r.sample(FIELD_KEYS, r.choice([1, 1, 2]))})
             else:
-                u["fields"] = ("call", r.choice([0, 2, 4] + ([1, 3, 5] if allow_raise else [])))
+                u["fields"] = ("call", r.choice([0, 2, 4, 6, 6] + ([1, 3, 5] if allow_raise else [])))
         if r.random() < 0.2:
             u["unset_tags"] = r.sample(TAG_KEYS[:3], r.choice([1, 2]))
             u["unset_as_str"] = r.random() < 0.5
@@ -314,7 +316,7 @@ class Gen:
         r = self.r
         obs = [("index_valid",), ("iter",)]
         k = r.choice(["ooo_batch", "carriers", "bad_batch", "stale_handle", "torn_update", "handle_times", "linebreaks", "zones",
-                      "remove_first", "ooo_then_remove", "nested_not", "reset_then_time", "getter_memo", "handle_sorted", "odd_strings", "shared_maps", "hash_twins"])
+                      "remove_first", "ooo_then_remove", "nested_not", "reset_then_time", "getter_memo", "handle_sorted", "odd_strings", "shared_maps", "hash_twins", "same_count", "redate"])
         pref = self.profile.get("scenario_pref")
         if pref and r.random() < 0.5:
             k = r.choice(pref)
@@ -361,7 +363,9 @@ class Gen:
             f = lambda: ("not", self.simple("fields"))
             t = lambda: self.simple(r.choice(["tags", "meas", "time"]))
             shapes = [lambda: ("not", ("and", t(), f())), lambda: ("and", t(), f()), lambda: ("or", t(), f()), lambda: ("not", ("or", f(), t())),
-                      lambda: ("not", f()), lambda: ("and", ("or", t(), t()), ("not", ("and", t(), f())))]
+                      lambda: ("not", f()), lambda: ("and", ("or", t(), t()), ("not", ("and", t(), f()))),
+                      lambda: ("not", ("S", "time", [], ("cmp", r.choice(["<", "<=", ">", ">="]), ("t", r.choice(pts)["time"])))),
+                      lambda: ("not", ("S", "time", [], ("cmp", r.choice(["<", "<=", ">", ">="]), ("t", r.choice(pts)["time"]))))]
             for _ in range(4):
                 q = r.choice(shapes)()
                 ops.append(r.choice([("search", q, self.mfilter(), False), ("count", q, None), ("get", q, None)]))
@@ -469,6 +473,37 @@ class Gen:
             for p in pts:
                 p["tags"]["nl"] = r.choice(["a\nb", "c\r\nd", "e\rf"])
             ops += [("insert", pts, None, "multiple"), ("insert", [self.point(T0 - 9 * SEC)], None)] + obs + [("len",), ("all", False), ("len",)]
+        elif k == "redate":
+            # every insert arrives in time order; then update() moves one point in time (past the newest / before the oldest): sorted reads must
+            # follow the new times although nothing was ever inserted out of order
+            pts = self.points_batch(r.choice([4, 5, 6]), in_order=True)
+            for i, p in enumerate(pts):
+                p["time"] = T0 + i * 10 * SEC
+                p["tags"]["id"] = str(i)
+            ops += [("insert", pts, None, "multiple")] + obs
+            which = r.randrange(len(pts))
+            newt = r.choice([T0 + 1000 * SEC, T0 - 1000 * SEC, T0 + 15 * SEC, T0 + (len(pts) - 1) * 10 * SEC + 1])
+            ops += [("update", ("S", "tags", [("k", "id")], ("cmp", "==", ("s", str(which)))), {"time": ("static", newt)}, None)] + obs
+            ops += [("search", ("noop", "tags"), None, True), ("all", True), ("search", ("S", "tags", [("k", "id")], ("exists",)), r.choice([None, "m1"]), True),
+                    ("handle", r.choice(MEAS), ("search", ("noop", "tags"), True)), ("handle", r.choice(MEAS), ("all", True)), ("get_timestamps", None),
+                    ("select", ["time", "tags.id"], ("noop", "tags"), None)]
+        elif k == "same_count":
+            # a query is answered by the index, one point is removed and one inserted (the number of points is what it was, every position
+            # behind the removed one has shifted), and the same query is used again - for a read, an update or a removal
+            pts = self.points_batch(r.choice([4, 5, 6]), in_order=True)
+            for i, p in enumerate(pts):
+                p["tags"]["site"] = "ab"[i % 2] if i else "b"
+                p["tags"]["id"] = str(i)
+                p["fields"]["n"] = i
+            q = ("S", "tags", [("k", "site")], ("cmp", "==", ("s", "a")))
+            ops += [("insert", pts, None, "multiple")] + obs + [r.choice([("count", q, None), ("search", q, None, False), ("contains", q, None)])]
+            ops += [("remove", ("S", "tags", [("k", "id")], ("cmp", "==", ("s", str(r.choice([0, 1]))))), None)] + obs
+            late = self.point(max(p["time"] for p in pts) + 5 * SEC)
+            late["tags"]["site"], late["tags"]["id"], late["fields"]["n"] = r.choice("ab"), "new", 99
+            ops += [("insert", [late], None)] + obs
+            ops += [r.choice([("update", q, {"fields": ("static", {"hit": 1})}, None), ("remove", q, None), ("search", q, None, False),
+                              ("update", q, {"tags": ("static", {"seen": "y"})}, None)])] + obs
+            ops += [("count", q, None), ("select", ["tags.id", "fields.n"], q, None), ("count", ("noop", "tags"), None)]
         elif k == "hash_twins":
             # comparison values whose Python hashes coincide (-1 / -2, 0 / 0.0 / False-like, 1 / 1.0): the same shape of query asked with one
             # value and then with the other, between two writes, on both read paths
@@ -515,9 +550,17 @@ class Gen:
                     p["fields"][key] = r.choice([1, 2.5, None, -3])
                 if r.random() < 0.4:
                     p["meas"] = r.choice([" m1", "m1 ", "t_m", "f_m", "_tag_", "'m'"])
+            if len(pts) >= 3 and r.random() < 0.6:
+                # two measurement names that are the same text to a reader but different strings (NFC / NFD): two measurements
+                pts[-1]["meas"], pts[-2]["meas"] = "Z\u00fcrich", "Zu\u0308rich"
+            if r.random() < 0.6:
+                # an instant far outside 1700-2240 (year 999 / 1 / 9999): only its text form in the file is at stake here, no time query follows
+                pts[0]["time"] = r.choice([-30628713600000000, -62135510400000000, 253370764800000000]) + r.randrange(1000000)
             half = len(pts) // 2
             ops += [("insert", pts[:half], None, "multiple"), ("insert", pts[half:], None, "multiple", "compact")] + self.file_obs() + obs
             ops += [(("reopen", r.random() < 0.5) if csv else ("reindex",)), ("all", False), ("get_tag_keys", None), ("get_field_keys", None), ("get_measurements",)]
+            for name in ("Z\u00fcrich", "Zu\u0308rich"):
+                ops += [("handle", name, ("len",)), ("handle", name, ("count", ("noop", "tags"))), ("count", ("noop", "tags"), name), ("handle", name, ("all", False))]
             ops += [("update", ("S", "tags", [("k", r.choice(okeys))], ("exists",)), {"tags": ("static", {"t_new": " v"})}, None)] + self.file_obs() + obs
             ops += [("update_all", {"fields": ("static", {"f_new": 7})})] + self.file_obs() + obs
             ops += [(("reopen", r.random() < 0.5) if csv else ("reindex",)), ("all", False), ("get_tag_values", [], None), ("get_field_keys", None), ("iter",)]
